@@ -1,4 +1,5 @@
 """C09 — results are a pure function of the input, independent of thread schedule."""
+import os
 from common import *
 from props.c01 import run_cells_op
 
@@ -11,11 +12,56 @@ TRUSTED = [
 ]
 
 
+def schedtag(chk):
+    """data-dependent integrals (per-cell datum 1000+i) under pools of 1..16 threads, through the downstream crate of C14"""
+    import props.c14 as c14
+    binary, blog = c14.build_downstream()
+    if binary is None:
+        chk.notes.append('downstream crate does not build (reported by C14); data-dependent integrals are not compared across schedules')
+        chk.violation('build', 'downstream crate (with-data integrals) does not build: the with-data loops are not compared across schedules', None, key='downstream')
+        return
+    f = os.path.join(chk.wdir(), 'schedtag.rec')
+    rc, fams, err = run_harness(binary, 'schedtag', chk.seed, chk.tier, f)
+    if rc != 0:
+        chk.violation('harness', 'downstream op schedtag failed: ' + err[-300:], None)
+        return
+    n = 0
+    for r in read_records(f):
+        chk.count()
+        rp = {'op': 'schedtag', 'ids': [r.id], 'family': r.family, 'record': r.line[:3000], 'cmd': '/verif/downstream/target/debug/mv_downstream schedtag --seed %d --tier %s' % (chk.seed, chk.tier)}
+        parts = ' '.join(r.res).split('T ')[1:]
+        per = {}
+        for p in parts:
+            toks = p.split()
+            per[int(toks[0])] = toks[1:]
+        base = per.get(1)
+        ngen = int(r.inp[8])
+        mask = r.inp[r.inp.index('M') + 1]
+        active = [i for i in range(ngen) if mask == '-' or mask[i] == '1']
+        for th, toks in sorted(per.items()):
+            if toks != base:
+                k = next((i for i in range(min(len(toks), len(base))) if toks[i] != base[i]), -1)
+                chk.violation('impl-vs-impl', 'data-dependent integral vectors differ between 1 and %d worker threads (record %d, %s, %d generators, first differing token %d: %s vs %s)'
+                              % (th, r.id, r.family, ngen, k, base[k] if 0 <= k < len(base) else '-', toks[k] if 0 <= k < len(toks) else '-'), dict(rp, threads=th), key='schedule-data')
+                break
+            n += 1
+        # alignment in the single-thread result: datum 1000+i reaches cell i
+        if base and base[0] == 'CD':
+            k = int(base[1])
+            cd = [(int(base[2 + 2 * j]), int(base[3 + 2 * j])) for j in range(k)]
+            if [c[0] for c in cd] != active or any(d != 1000 + i for i, d in cd):
+                chk.violation('impl-vs-oracle', 'per-cell data is not delivered to the cell with the same index (record %d)' % r.id, rp, key='data')
+        if ngen >= 50:
+            chk.nontriv(('schedtag', r.id))
+        chk.traces += 1
+    chk.extra_cov['schedtag_configurations_compared'] = n
+
+
 def run(chk):
     chk.trusted_base = TRUSTED
     chk.rule = ("op sched: 8 inputs per repetition (1D/2D/3D, periodic or not, lattice and on-boundary families that take the exact path, random masks; up to several thousand generators in thorough): "
                 "cells, faces in order, connectivity array, cell/face integral vectors (with and without data, sym and non-sym), with_faces route; serialised bit patterns must be identical for pools of 1,2,3,5,8,16,64 threads, "
-                "repeated runs, jitter seeds that perturb completion order, the global pool, and the build without the rayon feature; non-trivial = input with >= 50 generators; distinct by (input, configuration)")
+                "repeated runs, jitter seeds that perturb completion order, the global pool, and the build without the rayon feature; op schedtag (downstream crate): cell / face / sym-face integrals WITH per-cell data 1000+i under pools of 1,2,3,4,5,8,16 threads must be identical; non-trivial = input with >= 50 generators; distinct by (input, configuration)")
     chk.lean(['MVoro.Props.C09', 'MVoro.Proofs.Misc'], ['MVoro.Obl.Par'], ['Par'])
     got = run_cells_op(chk, op='sched', features='ibig,rayon')
     if got is None:
@@ -62,6 +108,4 @@ def run(chk):
         if len(chk.samples) < 3:
             chk.sample({'op': 'sched', 'family': r.family, 'generators': n, 'fingerprint': base, 'configurations': [hs[k] for k in range(0, len(hs), 2)] + ['no-rayon']})
     chk.extra_cov['configurations_compared'] = nconf
-    if chk.unparsed and not chk.violations:
-        chk.soft.append('Par fragment unparsed (%s); all schedules agree bitwise' % chk.gen.get('Par', {}).get('why'))
-        chk.obligations = [o for o in chk.obligations if o['module'] != 'MVoro.Obl.Par']
+    schedtag(chk)
